@@ -702,6 +702,9 @@ type vDOp struct {
 	CancelAt time.Duration // <0: never; 0: cancelled before the call
 	Deadline bool          // cancel by deadline instead of cancel()
 	Inner    string        // "", "wan", "lan": call the inner client directly instead of the dual
+	// NoAnnounce (provide): Provide(announce=false) - only the local provider record is written, on the DHT the
+	// write is routed to
+	NoAnnounce bool
 }
 
 type vDEmit struct {
@@ -817,7 +820,7 @@ func (n *vDNet) Run(op vDOp) *vDRes {
 	res.Start = time.Now()
 	switch op.Kind {
 	case "provide":
-		res.Err = cl.Provide(ctx, op.Cid, true)
+		res.Err = cl.Provide(ctx, op.Cid, !op.NoAnnounce)
 	case "putvalue":
 		res.Err = cl.PutValue(ctx, op.Key, op.Val, opts...)
 	case "getvalue":
